@@ -663,6 +663,41 @@ def _load_children(fnode, children):
     return "ok", stores
 
 
+def _slot_agreement(run, g):
+    """The Place that is written carries the image set in a slot the index loader reads back: every `<place>.<x>_image_set` the
+    builder ever stores its image set into (constructor, populate steps, index writer) is among the slots the loader takes the
+    image set from - and a slot the loader reads is not emptied by the writer."""
+    project = run.project
+    stores, clears = {}, {}
+    for f in project.functions_in(BLD):
+        if f.cls is None or f.cls.name != "Builder" or f.module.kind != "py":
+            continue
+        for x in own_nodes(f.node):
+            if isinstance(x, ast.Assign):
+                for t in x.targets:
+                    if isinstance(t, ast.Attribute) and t.attr.endswith("_image_set"):
+                        if isinstance(x.value, ast.Constant) and x.value.value is None:
+                            clears.setdefault(t.attr, (f, x))
+                        else:
+                            stores.setdefault(t.attr, (f, x))
+    reads = {x.attr for x in own_nodes(g.node) if isinstance(x, ast.Attribute) and x.attr.endswith("_image_set") and isinstance(x.ctx, ast.Load)}
+    if not stores or not reads:
+        run.undecided("C17.R5", g, None, "cannot find the image-set slot of the Place on the writer side (%d) or the loader side (%d)" % (len(stores), len(reads)),
+                      kind="index-slot")
+        return
+    bad = sorted(set(stores) - reads)
+    emptied = sorted(set(clears) & reads)
+    if bad:
+        f, x = stores[bad[0]]
+        run.violated("C17.R5", f, x, "%s stores the image set in the Place's `%s`, a slot the index loader never reads (it takes the image set from %s): on reuse of the "
+                     "directory the returned description has no image set although index_rel.wtml records one" % (f.short, bad[0], ", ".join(sorted(reads))), kind="index-slot")
+    elif emptied:
+        f, x = clears[emptied[0]]
+        run.violated("C17.R5", f, x, "%s empties the Place's `%s`, the slot the index loader takes the image set from" % (f.short, emptied[0]), kind="index-slot")
+    else:
+        run.holds("C17.R5", g, None, "the image set travels in `%s`, which the index loader reads back" % ", ".join(sorted(stores)))
+
+
 def _r5_roundtrip(run):
     project = run.project
     w = project.funcs.get(BLD + ".Builder.create_wtml_folder")
@@ -670,6 +705,7 @@ def _r5_roundtrip(run):
     if w is None or g is None:
         return
     run.note_func(w, g)
+    _slot_agreement(run, g)
     try:
         lists = _written_children(w.node)
         if not lists:
